@@ -2,9 +2,11 @@
 
 Proof: Props/C01.lean (`validate_sound`: acceptance by the symbolic validator implies equality with the
 denotation for all tensor contents and all interpretations of the elementary functions).
-Tie (T-str): the real traced graph (after optimisation, as compiled) of every generated id/elementwise
-call is serialised and validated in the Lean driver against the denotation of einx's own solved
-expressions.  Tie (prim): the numpy primitive plans are compared with real numpy on random inputs.
+Tie (T-str): the real traced graph (after optimisation, as compiled) of every generated id / elementwise
+(incl. n-ary) / reduce / dot / flip / roll / argmax / argmin / get_at / sort / argsort call is serialised and
+validated in the Lean driver against the denotation of einx's own solved expressions (softmax, log_softmax,
+logsumexp: oracle only).  Tie (prim): the numpy primitive plans are compared with real numpy on random inputs;
+the arithmetic normaliser behind the get_at fallback is self-checked.
 Search / T-beh: every generated call of every family is executed by einx on integer iota/random data
 and compared with the independent Python loop interpreter (lib.denote); the Lean denotation is
 cross-checked against that interpreter as well (a disagreement there is a machinery error).
@@ -16,6 +18,8 @@ import numpy as np
 from lib import core, gen, oracle, denote, graphcap
 
 EXTRACTORS = []
+# Props/C01Lower.lean: correctness of the lowering algorithm of `id` for all descriptions (built and audited with C01)
+EXTRA_PROPS = ["C01Lower"]
 BACKENDS = [None, "numpy", "numpy.numpylike", "numpy.einsum"]
 
 
@@ -34,7 +38,40 @@ def gen_prim(rng):
     rank = rng.randint(0, 4)
     shape = [rng.choice([1, 1, 2, 3, 4]) for _ in range(rank)]
     x = np.asarray([rng.randint(-50, 50) for _ in range(int(np.prod(shape)) if shape else 1)], dtype=np.int64).reshape(shape)
-    k = rng.choice(["reshape", "transpose", "broadcast_to", "diagonal", "concat", "slice", "index", "ewise", "reduce", "einsum", "matmul", "flip", "roll"])
+    k = rng.choice(["reshape", "transpose", "broadcast_to", "diagonal", "concat", "slice", "index", "ewise", "reduce", "einsum", "matmul", "flip", "roll",
+                    "argfind", "sort", "arange", "take", "divmod"])
+    if k == "argfind":
+        # ties are frequent (values in a small range): numpy returns the first extremum
+        x = np.asarray([rng.randint(-3, 3) for _ in range(int(np.prod(shape)) if shape else 1)], dtype=np.int64).reshape(shape)
+        if rank < 1:
+            return gen_prim(rng)
+        axis = rng.randrange(rank) if rng.random() < 0.9 else rank  # sometimes out of range: both must reject
+        f = rng.choice(["argmax", "argmin"])
+        return [x], [{"i": "argfind", "f": f, "x": 0, "axis": axis}], lambda: getattr(np, f)(x, axis=axis)
+    if k == "sort":
+        if rank < 1:
+            return gen_prim(rng)
+        axis = rng.randrange(rank)
+        f = rng.choice(["sort", "argsort"])
+        if f == "argsort":
+            # distinct values: the order of equal elements is not specified for numpy's default sort
+            vals = rng.sample(range(-200, 200), int(np.prod(shape)))
+            x = np.asarray(vals, dtype=np.int64).reshape(shape)
+        return [x], [{"i": "sort", "f": f, "x": 0, "axis": axis}], lambda: getattr(np, f)(x, axis=axis)
+    if k == "arange":
+        n = rng.randint(0, 6)
+        return [], [{"i": "arange", "n": n}], lambda: np.arange(n, dtype="int32")
+    if k == "take":
+        n = int(np.prod(shape)) if shape else 1
+        ishape = [rng.choice([1, 2, 3]) for _ in range(rng.randint(0, 3))]
+        idx = np.asarray([rng.randint(-n, n - 1) for _ in range(int(np.prod(ishape)) if ishape else 1)], dtype=np.int64).reshape(ishape)
+        return [x, idx], [{"i": "take", "x": 0, "idx": 1}], lambda: np.take(x, idx)
+    if k == "divmod":
+        # np.divmod(x, k) = (floor_divide(x, k), remainder(x, k)); the translation emits these two instructions
+        d = rng.choice([-4, -3, -2, -1, 1, 2, 3, 4, 5])
+        which = rng.randrange(2)
+        fs = ["floor_divide", "remainder"] if which else ["remainder", "floor_divide"]
+        return [x], [{"i": "ewise", "f": f_, "args": [{"reg": 0}, {"lit": d}]} for f_ in fs], lambda: np.divmod(x, d)[which]
     if k == "reduce":
         if rank < 1:
             return gen_prim(rng)
@@ -179,6 +216,58 @@ def prim_conformance(ctx, n):
     return bad
 
 
+# ---------------------------------------------------------------- arithmetic normaliser (self-check)
+
+def _arith_expr(rng, depth):
+    if depth == 0 or rng.random() < 0.25:
+        r = rng.random()
+        if r < 0.55:
+            return {"s": [0, rng.randrange(4)]}
+        if r < 0.9:
+            return {"l": rng.randint(-3, 4)}
+        return {"f": "negative", "a": [_arith_expr(rng, max(depth - 1, 0))]}
+    return {"f": rng.choice(["add", "multiply"]), "a": [_arith_expr(rng, depth - 1), _arith_expr(rng, depth - 1)]}
+
+
+def _arith_variant(rng, e):
+    """An expression equal to `e` in every commutative ring: arguments swapped, sums/products re-associated,
+    products distributed over sums -- at random places."""
+    if "f" not in e:
+        return e
+    args = [_arith_variant(rng, a) for a in e["a"]]
+    f = e["f"]
+    if f not in ("add", "multiply"):
+        return {"f": f, "a": args}
+    x, y = args
+    if rng.random() < 0.5:
+        x, y = y, x
+    if rng.random() < 0.5 and isinstance(x, dict) and x.get("f") == f:
+        return {"f": f, "a": [x["a"][0], {"f": f, "a": [x["a"][1], y]}]}
+    if f == "multiply" and rng.random() < 0.5 and isinstance(y, dict) and y.get("f") == "add":
+        return {"f": "add", "a": [{"f": "multiply", "a": [x, y["a"][0]]}, {"f": "multiply", "a": [x, y["a"][1]]}]}
+    return {"f": f, "a": [x, y]}
+
+
+def arith_norm_selfcheck(ctx, n):
+    """`IR.normArith` (used by the get_at fallback `validateArith`): values are preserved (this is also the theorem
+    `normArith_sound`) and ring-equal variants have the same normal form."""
+    drv = ctx.driver()
+    rng = ctx.rng
+    for _ in range(n):
+        e = _arith_expr(rng, rng.randint(1, 4))
+        v = _arith_variant(rng, e)
+        data = [rng.randint(-5, 5) for _ in range(4)]
+        r = drv.ask({"kind": "norm_arith", "cells": [e, v], "inputs": [{"shape": [4], "data": data}]})
+        if "norm" not in r:
+            raise core.MachineryError(f"norm_arith failed: {json.dumps(r)[:300]}")
+        if r["values"] != r["norm_values"] or r["values"][0] != r["values"][1]:
+            raise core.MachineryError(f"normArith changed a value: {json.dumps(e)} / {json.dumps(v)} on {data}: {r['values']} vs {r['norm_values']}")
+        if r["norm"][0] != r["norm"][1]:
+            raise core.MachineryError(f"normArith is not canonical: {json.dumps(e)} and {json.dumps(v)} -> {json.dumps(r['norm'])[:400]}")
+        ctx.count("arith-norm:" + ("variant-differs" if e != v else "variant-identical"))
+    ctx.extra["arith_norm_cases"] = n
+
+
 # ---------------------------------------------------------------- call stream
 
 def check_call(ctx, call, backend, args, validate=True):
@@ -214,9 +303,10 @@ def check_call(ctx, call, backend, args, validate=True):
     if not validate or not ctx.driver_ok:
         return "ok"
     fam = call["family"]
-    if fam == "elementwise" and len(args) != 2:
-        return "ok"      # n-ary forms are folds of the binary operation; covered by the oracle comparison above
-    if not (fam in ("id", "elementwise", "dot") or (fam == "reduce" and call["op"] != "logsumexp") or (fam == "preserve_shape" and call["op"] in ("flip", "roll"))):
+    # validated families; softmax / log_softmax / logsumexp rest on the oracle comparison above (their generated
+    # code is a numerically stabilised composition that the documentation does not define)
+    if not (fam in ("id", "elementwise", "dot", "argfind", "get_at") or (fam == "reduce" and call["op"] != "logsumexp")
+            or (fam == "preserve_shape" and call["op"] in ("flip", "roll", "sort", "argsort"))):
         return "ok"
     drv = ctx.driver()
     gj, _ = graphcap.graph_to_json(rec["post"])
@@ -227,12 +317,21 @@ def check_call(ctx, call, backend, args, validate=True):
         req["shifts"] = list(sh) if isinstance(sh, tuple) else [sh]
     r = drv.ask(req)
     ctx.count(f"validate:{fam}:{r['verdict']}")
+    # finer histogram for the families added later: n-ary elementwise and sort/argsort share a family name with others
+    if fam == "elementwise" and len(args) >= 3:
+        ctx.count(f"validate:elementwise_nary:{r['verdict']}")
+    if fam == "preserve_shape":
+        ctx.count(f"validate:preserve_shape.{call['op']}:{r['verdict']}")
+    if r["verdict"] == "unsupported":
+        ctx.count(f"validate-unsupported:{fam}:{str(r.get('why'))[:70]}")
+    if r["verdict"] == "accepted" and r.get("mode") == "arith":
+        ctx.count(f"validate-modulo-arithmetic:{fam}")
     if r["verdict"] == "accepted":
         ctx.extra["graphs_validated"] = ctx.extra.get("graphs_validated", 0) + 1
     elif r["verdict"] in ("rejected", "denote-error"):
         ctx.tie_broken("validator:traced-graph", f"{sig_of(call, b)}: {json.dumps(r)[:600]}\ncode:\n{rec['code']}")
     # cross-check the Lean denotation against the Python oracle on this input (machinery self-check)
-    if fam in ("id", "dot") or call["op"] in ("add", "subtract", "multiply", "maximum", "minimum", "sum", "prod", "max", "min", "flip", "roll"):
+    if fam in ("id", "dot", "argfind", "get_at") or call["op"] in ("add", "subtract", "multiply", "maximum", "minimum", "sum", "prod", "max", "min", "flip", "roll", "sort", "argsort"):
         dreq = {"kind": "denote", "family": fam, "op": call["op"], "exprs_in": ei, "exprs_out": eo, "inputs": [tens(a) for a in args]}
         if "shifts" in req:
             dreq["shifts"] = req["shifts"]
@@ -251,7 +350,8 @@ def check_call(ctx, call, backend, args, validate=True):
 
 def directed_calls():
     """Deterministic structural sweep: every non-empty subset of bracketed positions among 1..4 axes of pairwise
-    distinct lengths, for argmax (coordinate output first and last), sum and flip; the non-adjacent diagonal."""
+    distinct lengths, for argmax (coordinate output first and last), sum and flip; n-ary elementwise, get_at and
+    sort/argsort forms; the non-adjacent diagonal."""
     import itertools
     sizes = [2, 3, 4, 5]
     names = ["a", "b", "c", "d"]
@@ -266,6 +366,22 @@ def directed_calls():
                 yield {"op": "argmin", "family": "argfind", "desc": f"{e_in} -> {' '.join(reversed(keep))} [{k}]".strip(), "shapes": [shape], "kwargs": {}, "note": ["directed"]}
                 yield {"op": "sum", "family": "reduce", "desc": f"{e_in} -> {' '.join(reversed(keep))}", "shapes": [shape], "kwargs": {}, "note": ["directed"]}
                 yield {"op": "flip", "family": "preserve_shape", "desc": e_in, "shapes": [shape], "kwargs": {}, "note": ["directed"]}
+    # n-ary elementwise (left fold of the binary function), 3 and 4 operands, with broadcasting and transposition
+    for op in ("add", "multiply", "maximum", "minimum", "logical_and", "logaddexp"):
+        yield {"op": op, "family": "elementwise", "desc": "a b, b, a -> a b", "shapes": [(2, 3), (3,), (2,)], "kwargs": {}, "note": ["directed", "three-operands"]}
+        yield {"op": op, "family": "elementwise", "desc": "a b, b, a, b a -> b a", "shapes": [(2, 3), (3,), (2,), (3, 2)], "kwargs": {}, "note": ["directed", "four-operands"]}
+    # get_at: several coordinate tensors, leading / trailing / absent coordinate axis, vectorised axes on both sides
+    for desc, shapes, bounds, pos in [("[h w] c, p, p -> p c", [(3, 4, 2), (5,), (5,)], [3, 4], None),
+                                      ("b [h] c, b p -> b p c", [(2, 3, 2), (2, 4)], [3], None),
+                                      ("[h] w c, p -> p w c", [(3, 2, 2), (4,)], [3], None),
+                                      ("[h w] c, [2] p -> c p", [(3, 4, 2), (2, 5)], [3, 4], 0),
+                                      ("b [h w], b p [2] -> b p", [(2, 3, 4), (2, 5, 2)], [3, 4], 2),
+                                      ("[a b c], p [3] -> p", [(2, 3, 4), (5, 3)], [2, 3, 4], 1),
+                                      ("[h] 1 c, p [1] -> c p", [(3, 1, 2), (4, 1)], [3], 1)]:
+        yield {"op": "get_at", "family": "get_at", "desc": desc, "shapes": shapes, "kwargs": {}, "note": ["directed"], "coord_bounds": bounds, "coord_axis_pos": pos}
+    for op in ("sort", "argsort"):
+        for desc, shape in [("[a]", (4,)), ("a [b] c", (2, 3, 2)), ("a [b] c -> c [b] a", (2, 3, 2)), ("[a] b", (3, 2))]:
+            yield {"op": op, "family": "preserve_shape", "desc": desc, "shapes": [shape], "kwargs": {}, "note": ["directed"]}
     for desc, shape in [("a e a d -> a d e", (2, 3, 2, 4)), ("b a c a -> a b c", (3, 2, 4, 2)), ("a b a c -> c b a", (2, 3, 2, 4)), ("a a b a -> b a", (2, 2, 3, 2))]:
         yield {"op": "id", "family": "id", "desc": desc, "shapes": [shape], "kwargs": {}, "note": ["directed", "diagonal"]}
 
@@ -278,11 +394,12 @@ def run(ctx):
         n_calls *= 3
     ctx.extra["rule"] = ("grammar-directed einx calls (id with grouping/diagonal/1-axes/broadcast/concat/ellipsis, reductions, elementwise, dot, get_at, argmax/argmin, "
                          "flip/roll/sort/argsort/softmax) on the numpy backends; each executed on integer data and compared with the Python loop interpreter; traced graphs of "
-                         "id/elementwise calls validated symbolically in Lean; non-trivial = at least two axes or a composition/diagonal/broadcast; distinct by (op, description, shapes, backend)")
+                         "id/elementwise/reduce/dot/flip/roll/argmax/argmin/get_at/sort/argsort calls validated symbolically in Lean; non-trivial = at least two axes or a composition/diagonal/broadcast; distinct by (op, description, shapes, backend)")
     ctx.assumptions.append("solved stage-3 expression trees are taken from einx itself (front-trusted; tied by C02/C07/C12)")
     ctx.assumptions.append("numpy primitive plans in IR/Prim.lean describe numpy (conformance-tested on this run)")
     if ctx.driver_ok:
         prim_conformance(ctx, n_prim)
+        arith_norm_selfcheck(ctx, 150 if ctx.quick else 3000)
     directed = list(directed_calls())
     for call in directed:
         args = gen.make_args(call, rng, "rand")
